@@ -25,17 +25,18 @@ run_case() {  # name prop kind arg
 }
 export -f run_case; export HERE OUT TIER W
 {
-python3 - <<'PY'
-import json
-d=json.load(open('/verif/known_findings.json'))
+python3 - "$HERE" <<'PY'
+import json, sys
+HERE=sys.argv[1]
+d=json.load(open(HERE+'/known_findings.json'))
 for f in d['findings']:
     if f['status']=='fixed':
         print(f"revert-{f['id']} {f['property']} revert {f['commit']}")
         if f['id'] in ('F-D3a','F-D7'):  # also visible through the simulation flow
             print(f"revert-{f['id']} C15 revert {f['commit']}")
 import os
-for s in sorted(os.listdir('/verif/seeded')):
-    m=json.load(open(f'/verif/seeded/{s}/meta.json'))
+for s in sorted(os.listdir(HERE+'/seeded')):
+    m=json.load(open(f'{HERE}/seeded/{s}/meta.json'))
     print(f"seeded-{s} {m['property']} seeded {s}")
 PY
 } | xargs -P "$JOBS" -L 1 bash -c 'run_case "$@"' _ | tee "$OUT/summary.txt"
